@@ -39,7 +39,7 @@ NS = [2, 4, 8, 16, 32, 64]
 SIGNAL_MODES = ('signal', 'signalmain', 'baresignal', 'baresignalmain')
 SLOW_RESET_MODES = ('resetslow', 'bareresetslow')
 RESET_MODES = ('resetwhile', 'bareresetwhile') + SLOW_RESET_MODES
-ALL_MODES = ('logger', 'bare', 'mixed', 'fatal', 'mixed+fatal', 'throw', 'throwlogger', 'filtered', 'pattern', 'twopipes') + SIGNAL_MODES + RESET_MODES
+ALL_MODES = ('logger', 'bare', 'mixed', 'fatal', 'mixed+fatal', 'throw', 'throwlogger', 'filtered', 'pattern', 'twopipes', 'filesink') + SIGNAL_MODES + RESET_MODES
 
 
 def nprod(cfg):
@@ -341,7 +341,8 @@ def special_configs(chk, reps, total):
     for _ in range(reps):
         for mode, n, per in (('throw', 4, 100), ('throwlogger', 4, 100), ('filtered', 4, total // 4), ('filtered', 16, total // 16),
                              ('pattern', 4, 1500), ('pattern', 8, 750), ('pattern', 2, 4000),
-                             ('twopipes', 2, 300), ('twopipes', 4, total // 4), ('twopipes', 8, total // 8)):
+                             ('twopipes', 2, 300), ('twopipes', 4, total // 4), ('twopipes', 8, total // 8),
+                             ('filesink', 4, 250), ('filesink', 8, 125)):
             cfgs.append({'mode': mode, 'n': n, 'per': per, 'seed': chk.rng.randrange(1, 2 ** 31),
                          'perturb': chk.rng.choice([0, 1, 2]), 'dup': 0, 'stall': 0})
     return cfgs
@@ -412,6 +413,7 @@ def run():
     disagreements = 0
     fmt_checked = 0
     twopipes_runs = 0
+    filesink_runs = 0
     for cfg, rc, hdr, toks, err in results:
         if rc != 0 or hdr is None:
             kind = 'hang' if rc == 124 else 'crash'
@@ -444,6 +446,24 @@ def run():
                              'the single-threaded result, e.g. %r instead of %r' % (mf.group(2) if mf else '?', mf.group(1) if mf else '?',
                                                                                     det.get('formatted'), det.get('single_threaded_expectation')),
                              dict(cfg, kind='format_corrupt', header=hdr[:300], **det), kind='format_corrupt')
+                    reported += 1
+            continue
+        if cfg['mode'] == 'filesink':
+            # round 8: a real file sink (fluent sendToFile) behind the recording sink, every fifth text empty: one line per delivery,
+            # blank lines included, each producer's lines in its program order
+            mf = re.search(r'file_lines=(\d+) file_blank=(\d+) file_bad=(\d+) file_disorder=(\d+)', hdr)
+            deliv = sum(1 for t in toks if t[0] == 'X')
+            n_events += len(toks); n_deliv += deliv; filesink_runs += 1
+            want = cfg['n'] * cfg['per']
+            want_blank = cfg['n'] * sum(1 for i in range(cfg['per']) if i % 5 == 2)
+            if not mf or deliv != want or [int(x) for x in mf.groups()] != [want, want_blank, 0, 0]:
+                kinds['file_sink'] = kinds.get('file_sink', 0) + 1
+                if reported < 3:
+                    got = dict(zip(('lines', 'blank_lines', 'malformed_lines', 'lines_out_of_program_order'), [int(x) for x in mf.groups()])) if mf else {}
+                    chk.fail('file_sink: %d producers x %d messages (every fifth with an empty formatted text) through a bare pipeline with a recording sink and '
+                             'a file sink built by sendToFile(): the recording sink got %d deliveries, the file holds %s - expected %d lines of which %d blank, '
+                             'none malformed, every producer in program order' % (cfg['n'], cfg['per'], deliv, got or 'nothing readable', want, want_blank),
+                             dict(cfg, kind='file_sink', header=hdr[:300], file=got, expected_lines=want, expected_blank=want_blank), kind='file_sink')
                     reported += 1
             continue
         if cfg['mode'] == 'twopipes':
@@ -620,7 +640,7 @@ def run():
                                          note='S = emission observed by a directly connected functor; Q = reception by a QObject in the main '
                                               'thread connected by the library\'s sendToSignal() (string-based AutoConnection)'),
                     'reset_while_logging': reset_stats, 'corpus_configurations': len(corpus),
-                    'formatted_texts_compared': fmt_checked, 'two_pipeline_runs_with_per_pipeline_numbering_oracle': twopipes_runs,
+                    'formatted_texts_compared': fmt_checked, 'two_pipeline_runs_with_per_pipeline_numbering_oracle': twopipes_runs, 'runs_with_a_real_file_sink_and_empty_texts': filesink_runs,
                     'flush_intervals_recorded': sum(sum(1 for t in r[3] if t[0] == 'F') for r in results),
                     'perturb_histogram': {str(p): sum(1 for r in results if r[0]['perturb'] == p) for p in range(4)},
                     'dupfilter_runs': sum(1 for r in results if r[0]['dup']), 'long_handler_runs': sum(1 for r in results if r[0].get('stall')),
